@@ -235,6 +235,12 @@ CORPUS = [
     ["localhost://?a", "custom:///p"],
     # cleaning order: control characters go first, then the surrounding whitespace
     ["\x00 a.com/x", "a.com/x \x00", " \x00 http://a.com/x", "a.com/x"],
+    # FX-C04-a3404a2 / FX-C04-dcfec1d (fixes of C04 that the hierarchy sees through normalize_url / fingerprint_url)
+    ["http://amp-www.a.com/x", "http://www.a.com/x", "http://a.com/x"],
+    ["\x00http://a.com/x?redirect=/z", "http://a.com/x?redirect=/z", "http://a.com/z"],
+    [" url=http://b.com/x", "url=http://b.com/x"],
+    ["http://x.cdn.ampproject.org/c/ ", "http://x.cdn.ampproject.org/c/"],
+    ["http://a.com/?url=https:// "],
     # further shapes
     ["HTTP://User:Pw@WWW.M.Example.com:8080/a/../B/index.html?utm_source=x&b=2&a=1&amp;ref=fb#top"],
     ["amp-www2.a.com:80/x/amp/?s=12&z=%41&y#/route"],
